@@ -15,19 +15,19 @@ import (
 // generated, so later choices (crash points, keys that collide under the seed in effect) can depend
 // on what was observed. The finished command list is then replayed on the Coq model.
 type G struct {
-	r      *rng
-	im     *interp.Impl
-	c      *Case
-	impl   [][]string
-	ref    map[string][]byte // the specification: a plain map
-	isOpen bool
-	seed   uint32 // hash seed in effect
-	keys   [][]byte
-	maxSeg int
-	nextSeed uint32
+	r         *rng
+	im        *interp.Impl
+	c         *Case
+	impl      [][]string
+	ref       map[string][]byte // the specification: a plain map
+	isOpen    bool
+	seed      uint32 // hash seed in effect
+	keys      [][]byte
+	maxSeg    int
+	nextSeed  uint32
 	dumpEvery int
 	bigValues bool
-	nmut   int
+	nmut      int
 }
 
 func newG(r *rng, name string) *G {
